@@ -483,8 +483,11 @@ package soyhtml
 //@   props C08 C09 C13
 //@   nosafety
 //@   loop 0
-//@     invariant fresh(keys)
+//@     invariant fresh(names)
+//@     bag names
 //@     noterm
+//@   loop 1
+//@     invariant fresh(keys) && !isnil(keys)
 //@ func funcAugmentMap
 //@   like renderFn
 //@   props C08 C09 C13
